@@ -21,8 +21,10 @@ ASSUMPTIONS = [
     "an arbitrary instant and held over a write-clock edge, then at least 4 read-clock edges, then at least 4 write-clock edges "
     "(the documentation does not say how long a reset must last; a CDC reset shorter than a few cycles of both clocks is left "
     "unjudged). From the instant it rises "
-    "the queue is empty (lib.fifo: 'When the write domain reset is asserted, the FIFO becomes empty'), except for the one entry "
-    "AsyncFIFOBuffered may already hold in its output register; nothing is accepted at a write edge while it is asserted. The "
+    "the queue is empty (lib.fifo: 'When the write domain reset is asserted, the FIFO becomes empty'); the one entry "
+    "AsyncFIFOBuffered may hold in its (read-domain) output register stays visible at most until the second read-clock edge "
+    "under reset; nothing is accepted at a write edge while it is asserted; `r_rst` must have been seen asserted before the "
+    "reset is released. The "
     "level outputs are not judged from the rise until 4 edges of each clock after the release. A reset released sooner than "
     "that (possible only in a minimised replay) ends the judged part of the run.",
     "Liveness bound used: after writes stop, 8 + 4*depth full cycles of each clock, alternating, reader draining.",
@@ -151,7 +153,7 @@ def run_case(case):
     def body(drv):
         stats["probes"]["elaborated"] += 1
         dq = deque()
-        R = {"rst": 0, "window": False, "reads_since": 0, "post_r": 0, "post_w": 0}
+        R = {"rst": 0, "window": False, "reads_since": 0, "post_r": 0, "post_w": 0, "doomed": 0, "r_rst_seen": False}
         buffered = config["cls"] == "AsyncFIFOBuffered"
         inp = {"w_en": 0, "w_data": 0, "r_en": 0}
         sigs = {"w_en": dut.w_en, "w_data": dut.w_data, "r_en": dut.r_en}
@@ -188,8 +190,12 @@ def run_case(case):
                     stats["faults"]["reset"] = stats["faults"].get("reset", 0) + 1
                     if dq:
                         stats["probes"]["reset_while_holding"] = stats["probes"].get("reset_while_holding", 0) + 1
+                    # AsyncFIFOBuffered's output register belongs to the read domain: the entry it shows can only go away at
+                    # a read-clock edge, so it may stay visible (and be read) until the first read edge under reset
                     head = dq[0] if (dq and buffered and obs[1]) else None
                     dq.clear()
+                    R["doomed"] = 1 if head is not None else 0
+                    R["r_rst_seen"] = False
                     if head is not None:
                         dq.append(head)
                         stats["probes"]["reset_with_buffered_head"] = stats["probes"].get("reset_with_buffered_head", 0) + 1
@@ -198,6 +204,9 @@ def run_case(case):
                     if R["reads_since"] < 9:
                         stats["probes"]["short_reset_unjudged"] = stats["probes"].get("short_reset_unjudged", 0) + 1
                         raise StopJudging()
+                    if not R["r_rst_seen"] and depth > 0:        # (a queue of depth 0 has no state to reset and no reset logic)
+                        raise Violation("r_rst_not_asserted", i, {"note": "r_rst must be asserted for at least one read-domain "
+                                                                          "cycle after the FIFO has been reset by the write domain"})
                     R["rst"], R["post_r"], R["post_w"] = 0, 0, 0
                     drv.drive({"write.rst": 0})
             elif st["k"] == "set":
@@ -265,6 +274,15 @@ def run_case(case):
                         stats["probes"]["reads"] += 1
                     elif inp["r_en"]:
                         stats["faults"]["underrun"] += 1
+                    if R["doomed"]:
+                        # the reset reaches the output stage through a read-domain register: by the second read edge under reset
+                        # whatever the output register held is gone, read or not
+                        R["doomed"] += 1
+                        if R["doomed"] > 2:
+                            if dq:
+                                stats["probes"]["buffered_head_dropped_by_reset"] = stats["probes"].get("buffered_head_dropped_by_reset", 0) + 1
+                            dq.clear()
+                            R["doomed"] = 0
                 if w_edge and R["rst"]:
                     pass        # nothing is accepted while the write domain is held in reset
                 elif w_edge:
@@ -282,6 +300,8 @@ def run_case(case):
                         stats["faults"]["overrun"] += 1
             obs = observe()
             invariants(i, obs)
+            if R["rst"] and drv.get(dut.r_rst):
+                R["r_rst_seen"] = True
             dig.add((st["k"], lv["write"], lv["read"], obs, len(dq)))
             return obs
 
